@@ -8,6 +8,7 @@ identity, so moving an import between modules does not silently disable a seam.
 import builtins
 import concurrent.futures as _cf
 import glob as _glob
+import hashlib as _hashlib
 import os as _os
 import pickle
 import posixpath as _pp
@@ -35,6 +36,7 @@ class _Ctx:
     installed = False
     saved = []
     executors = 0
+    set_salt = 0
 
 
 CTX = _Ctx()
@@ -125,6 +127,23 @@ def _wake_future_waiters(sim, fut):
 
 class SimFuture(_cf.Future):
     sim_name = "future"
+
+    def __init__(self):
+        super().__init__()
+        # identity hash would make the iteration order of sets of futures (wait() results) depend on memory
+        # addresses: a creation counter per simulation keeps it a function of the seed
+        sim = CTX.sim
+        if sim is not None:
+            sim.counters["futures_created"] += 1
+            self._h = sim.counters["futures_created"]
+        else:
+            self._h = id(self) >> 4
+
+    def __hash__(self):
+        return self._h
+
+    def __eq__(self, other):
+        return self is other
 
     def _sim(self):
         return CTX.sim
@@ -477,6 +496,65 @@ def strax_modules():
             if (n == "strax" or n.startswith("strax.")) and isinstance(m, types.ModuleType)]
 
 
+_PLAIN = (str, int, float, bytes, tuple, bool, type(None), frozenset)
+
+
+def _det_key(x):
+    if isinstance(x, _PLAIN) or type(x).__repr__ is not object.__repr__:
+        body = repr(x)
+    else:
+        body = type(x).__qualname__
+    salt = CTX.set_salt
+    return body if salt == 0 else _hashlib.md5(f"{salt}:{body}".encode()).digest().hex()
+
+
+class DetSet(set):
+    """`set` as seen by strax's planning code: iteration order is a permutation keyed by the run's seed.
+
+    strax iterates over sets of data-type names (`list(set(targets))`, `tuple(pendants - set(loaders))[:1]`,
+    the savers to create ...): with a plain set that order depends on PYTHONHASHSEED, a source of legal
+    nondeterminism the simulator has to own.
+    """
+
+    def __iter__(self):
+        items = list(set.__iter__(self))
+        try:
+            items.sort(key=_det_key)
+        except Exception:       # noqa: unsortable keys keep the underlying order
+            pass
+        return iter(items)
+
+    def pop(self):
+        for x in self:
+            self.discard(x)
+            return x
+        raise KeyError("pop from an empty set")
+
+    def copy(self):
+        return DetSet(set.__iter__(self))
+
+    def __reduce__(self):
+        return (set, (list(set.__iter__(self)),))
+
+
+def _det_binop(name):
+    base = getattr(set, name)
+
+    def op(self, *others):
+        r = base(self, *others)
+        return DetSet(set.__iter__(r)) if isinstance(r, set) else r
+    op.__name__ = name
+    return op
+
+
+for _n in ("__sub__", "__rsub__", "__or__", "__ror__", "__and__", "__rand__", "__xor__", "__rxor__", "union",
+           "intersection", "difference", "symmetric_difference"):
+    setattr(DetSet, _n, _det_binop(_n))
+
+SET_SEAM_MODULES = ("strax.context", "strax.processors.threaded_mailbox", "strax.processors.post_office",
+                    "strax.processors.single_thread", "strax.plugins.parrallel_source_plugin", "strax.run_selection")
+
+
 def install(sim, fs=None):
     """Route every nondeterminism seam of strax to the simulator."""
     if CTX.installed:
@@ -517,6 +595,12 @@ def install(sim, fs=None):
         had = "print" in d
         saved.append((m, "print", d.get("print"), had))
         d["print"] = _no_print
+        if m.__name__ in SET_SEAM_MODULES:
+            had = "set" in d
+            saved.append((m, "set", d.get("set"), had))
+            d["set"] = DetSet
+            seams.add(f"{m.__name__}.set")
+    CTX.set_salt = (getattr(sim, "seed", 0) or 0) % 5
     CTX.saved = saved
     CTX.seams = sorted(seams)
     _threading.Thread.start = _canary_thread_start
